@@ -25,7 +25,6 @@ import (
 	"github.com/pkg/errors"
 	"go.uber.org/multierr"
 	"google.golang.org/grpc/status"
-	pb "google.golang.org/protobuf/proto"
 
 	"github.com/oxia-db/oxia/common/concurrent"
 	"github.com/oxia-db/oxia/common/constant"
@@ -481,8 +480,11 @@ func (lc *leaderController) applyAllEntriesIntoDBLoop(r wal.Reader) error {
 			return err
 		}
 
+		// The entries have to be decoded in the same way as the followers decode them (and as the request
+		// was decoded when it was received): the reflection based unmarshalling refuses strings that are
+		// not valid UTF-8, which are accepted everywhere else, and would make this node unable to become leader
 		logEntryValue := &proto.LogEntryValue{}
-		if err = pb.Unmarshal(entry.Value, logEntryValue); err != nil {
+		if err = logEntryValue.UnmarshalVT(entry.Value); err != nil {
 			return err
 		}
 		for _, writeRequest := range logEntryValue.GetRequests().Writes {
